@@ -28,11 +28,15 @@ def _gen(rng):
         s = rng.choice([0, 0, 1, 2])
         pre = [] if rng.random() < 0.4 else [(0, 1, rng.randint(0, 3), None)] * rng.randint(1, 2)
         sel = (5, rng.choice([1, 2]), s, rng.choice([None, None, ('?', None, 2), ('!', 3, None), 2, ('?', ('!', None, 2), 13)]))
+        if rng.random() < 0.2:
+            sel = (5, 1, s, gen.long_chain_area(rng))
         pops = rng.choice([
             [(1, 1, 3, None)], [(1, 3, 3, None)], [(2, 2, 4, None)], [(3, 1, 3, None)], [(3, 2, 1, None)], [(4, 2, 3, None)],
             [(5, 1, 3, None)], [(5, 2, 0, None)], [(0, 1, 1, ('?', None, 2))], [(0, 1, 2, ('!', 2, ('!', None, 3)))],
             [(0, 1, 1, None), (1, 2, 1, None)]])
         post = gen.gen_random(rng, True, 1, 5)
+        if rng.random() < 0.2:
+            pops = [(rng.choice([0, 1, 3]), 1, rng.choice([1, 2, 3]), gen.long_chain_area(rng))]
         return 'io_first', pre + [sel] + pops + post
     if k < 0.5:
         # non-terminating loops whose values stay small
